@@ -19,6 +19,7 @@
 //! and all messages are parsed by the harness's own wire code.
 
 use bytes::Bytes;
+use domain::base::opt::Padding;
 use domain::base::Message;
 use domain::net::client::cache;
 use domain::net::client::request::{
@@ -58,29 +59,43 @@ const T_RRSIG: u16 = 46;
 const T_NSEC: u16 = 47;
 const T_NSEC3: u16 = 50;
 
-/// Questions: 0 a.ex/A, 1 b.ex/A, 2 a.ex/RRSIG, 3 A.EX/A (same question as
-/// 0, different case).
-const NQ: usize = 4;
-fn q_name(q: u8) -> &'static [u8] {
-    match q {
-        0 | 2 => b"\x01a\x02ex\x00",
-        1 => b"\x01b\x02ex\x00",
-        _ => b"\x01A\x02EX\x00",
-    }
+/// Request forms. 0-3 are cacheable standard queries (3 is the same
+/// question as 0 in another case). 4-7 are the forms cache.rs passes
+/// through: another class, more than one question, no question, another
+/// opcode. A QUERY without a question cannot be built (RequestMessage::new
+/// refuses it), so "no question" comes with opcode STATUS.
+struct Form {
+    opcode: u8,
+    qs: &'static [(&'static [u8], u16, u16)],
+    text: &'static str,
 }
-fn q_type(q: u8) -> u16 {
-    if q == 2 {
-        T_RRSIG
-    } else {
-        T_A
-    }
+const A_LC: &[u8] = b"\x01a\x02ex\x00";
+const B_LC: &[u8] = b"\x01b\x02ex\x00";
+const A_UC: &[u8] = b"\x01A\x02EX\x00";
+const NQ: usize = 8;
+const FORMS: [Form; NQ] = [
+    Form { opcode: 0, qs: &[(A_LC, T_A, 1)], text: "a.ex/A" },
+    Form { opcode: 0, qs: &[(B_LC, T_A, 1)], text: "b.ex/A" },
+    Form { opcode: 0, qs: &[(A_LC, T_RRSIG, 1)], text: "a.ex/RRSIG" },
+    Form { opcode: 0, qs: &[(A_UC, T_A, 1)], text: "A.EX/A" },
+    Form { opcode: 0, qs: &[(A_LC, T_A, 3)], text: "a.ex/A-class-CH" },
+    Form { opcode: 0, qs: &[(A_LC, T_A, 1), (B_LC, T_A, 1)], text: "two-questions(a.ex/A,b.ex/A)" },
+    Form { opcode: 2, qs: &[], text: "opcode-STATUS-no-question" },
+    Form { opcode: 2, qs: &[(A_LC, T_A, 1)], text: "opcode-STATUS-a.ex/A" },
+];
+/// What "the same question" means: opcode and the whole question section,
+/// names compared case-insensitively.
+type Ident = (u8, Vec<(Vec<u8>, u16, u16)>);
+fn form_ident(q: u8) -> Ident {
+    let f = &FORMS[q as usize];
+    (f.opcode, f.qs.iter().map(|(n, t, c)| (n.to_ascii_lowercase(), *t, *c)).collect())
 }
 fn q_text(q: u8) -> &'static str {
-    ["a.ex/A", "b.ex/A", "a.ex/RRSIG", "A.EX/A"][q as usize]
+    FORMS[q as usize].text
 }
 
 /// Upstream answer kinds.
-const KINDS: [&str; 34] = [
+const KINDS: [&str; 37] = [
     "pos-ttl10-aa",          // 0
     "pos-mixed-answer-5/20", // 1
     "pos-20-authority-5",    // 2
@@ -121,7 +136,13 @@ const KINDS: [&str; 34] = [
     "ad-nodata7-without-dnssec-records",    // 31
     "ad-nxdomain7-without-dnssec-records",  // 32
     "unvalidated-signed-pos10-all-sections", // 33 answer, authority NS and additional glue each with RRSIG iff DO, AD never
+    // TTLs above the documented MAXIMA of the setters (config huge-requested only)
+    "pos-ttl-10000000",   // 34
+    "nodata-soa100000",   // 35
+    "nxdomain-soa100000", // 36
 ];
+/// Kinds 0..N_MAIN form the answer menu of the main shapes.
+const N_MAIN: u8 = 34;
 const K_PROBE: u8 = 0; // what upstream answers when a probe is forwarded
 const K_TRANSPORT: u8 = 15;
 const K_NX_NOSOA: u8 = 10;
@@ -138,30 +159,60 @@ struct Cfg {
     nodata: u64,
     delegation: u64,
     cache_truncated: bool,
+    /// how the real Config/Connection is produced
+    setup: Setup,
 }
-const CFGS: [Cfg; 4] = [
+#[derive(Clone, Copy, Debug, PartialEq, Eq)]
+enum Setup {
+    /// Connection::new(upstream): the documented defaults
+    New,
+    /// Config::new() + every setter with exactly the reference value
+    Exact,
+    /// every duration setter called with Duration::ZERO: documented minima apply
+    Zero,
+    /// every duration setter called with Duration::MAX: documented maxima apply
+    Huge,
+    /// set_max_cache_entries(0) (documented minimum 1 applies), rest default
+    OneEntry,
+}
+const CFG_ZERO: usize = 4;
+const CFG_HUGE: usize = 5;
+const CFG_ONE_ENTRY: usize = 6;
+const CFGS: [Cfg; 7] = [
     // documented defaults; built with Config::new() and no setter
-    Cfg { name: "default", max_validity: 604800, transport_failure: 30, misc_error: 30, nxdomain: 3600, nodata: 3600, delegation: 1_000_000, cache_truncated: false },
+    Cfg { name: "default", max_validity: 604800, transport_failure: 30, misc_error: 30, nxdomain: 3600, nodata: 3600, delegation: 1_000_000, cache_truncated: false, setup: Setup::New },
     // every bound at its documented minimum
-    Cfg { name: "tiny", max_validity: 60, transport_failure: 1, misc_error: 1, nxdomain: 60, nodata: 60, delegation: 60, cache_truncated: false },
-    Cfg { name: "default+cache_truncated", max_validity: 604800, transport_failure: 30, misc_error: 30, nxdomain: 3600, nodata: 3600, delegation: 1_000_000, cache_truncated: true },
+    Cfg { name: "tiny", max_validity: 60, transport_failure: 1, misc_error: 1, nxdomain: 60, nodata: 60, delegation: 60, cache_truncated: false, setup: Setup::Exact },
+    Cfg { name: "default+cache_truncated", max_validity: 604800, transport_failure: 30, misc_error: 30, nxdomain: 3600, nodata: 3600, delegation: 1_000_000, cache_truncated: true, setup: Setup::Exact },
     // all bounds pairwise different (detects a bound taken from the wrong field)
-    Cfg { name: "distinct+cache_truncated", max_validity: 100, transport_failure: 5, misc_error: 7, nxdomain: 70, nodata: 80, delegation: 90, cache_truncated: true },
+    Cfg { name: "distinct+cache_truncated", max_validity: 100, transport_failure: 5, misc_error: 7, nxdomain: 70, nodata: 80, delegation: 90, cache_truncated: true, setup: Setup::Exact },
+    // out-of-range requests: the documented limits of the setters are the reference
+    Cfg { name: "zero-requested", max_validity: 60, transport_failure: 1, misc_error: 1, nxdomain: 60, nodata: 60, delegation: 60, cache_truncated: false, setup: Setup::Zero },
+    Cfg { name: "huge-requested", max_validity: 6_048_000, transport_failure: 300, misc_error: 300, nxdomain: 86400, nodata: 86400, delegation: 1_000_000_000, cache_truncated: false, setup: Setup::Huge },
+    Cfg { name: "one-cache-entry", max_validity: 604800, transport_failure: 30, misc_error: 30, nxdomain: 3600, nodata: 3600, delegation: 1_000_000, cache_truncated: false, setup: Setup::OneEntry },
 ];
 
 fn make_cfg(i: usize) -> cache::Config {
     let c = &CFGS[i];
     let mut cfg = cache::Config::new();
-    if c.name == "default" {
-        return cfg;
+    let d = |exact: u64| match c.setup {
+        Setup::Zero => Duration::ZERO,
+        Setup::Huge => Duration::MAX,
+        _ => Duration::from_secs(exact),
+    };
+    match c.setup {
+        Setup::New => {}
+        Setup::OneEntry => cfg.set_max_cache_entries(0),
+        _ => {
+            cfg.set_max_validity(d(c.max_validity));
+            cfg.set_transport_failure_duration(d(c.transport_failure));
+            cfg.set_misc_error_duration(d(c.misc_error));
+            cfg.set_max_nxdomain_validity(d(c.nxdomain));
+            cfg.set_max_nodata_validity(d(c.nodata));
+            cfg.set_max_delegation_validity(d(c.delegation));
+            cfg.set_cache_truncated(c.cache_truncated);
+        }
     }
-    cfg.set_max_validity(Duration::from_secs(c.max_validity));
-    cfg.set_transport_failure_duration(Duration::from_secs(c.transport_failure));
-    cfg.set_misc_error_duration(Duration::from_secs(c.misc_error));
-    cfg.set_max_nxdomain_validity(Duration::from_secs(c.nxdomain));
-    cfg.set_max_nodata_validity(Duration::from_secs(c.nodata));
-    cfg.set_max_delegation_validity(Duration::from_secs(c.delegation));
-    cfg.set_cache_truncated(c.cache_truncated);
     cfg
 }
 
@@ -172,10 +223,15 @@ struct Step {
     f: u8,
     /// what the upstream answers if this step reaches it
     ans: u8,
+    /// how the client builds the request: 0 = flags in the message given to
+    /// RequestMessage::new; 1 = flags set afterwards through header_mut();
+    /// 2 = as 1, plus set_udp_payload_size and add_opt (an OPT record is
+    /// present even when DO is clear)
+    mode: u8,
 }
 
 fn step_json(s: &Step) -> Value {
-    json!({"adv_ms": s.adv_ms, "q": s.q, "flags": s.f, "ans": s.ans})
+    json!({"adv_ms": s.adv_ms, "q": s.q, "flags": s.f, "ans": s.ans, "mode": s.mode})
 }
 fn flags_text(f: u8) -> String {
     format!(
@@ -188,10 +244,11 @@ fn flags_text(f: u8) -> String {
 }
 fn step_text(s: &Step) -> String {
     format!(
-        "+{}ms {} [{}] upstream-would-answer={}",
+        "+{}ms {} [{}]{} upstream-would-answer={}",
         s.adv_ms,
         q_text(s.q),
         flags_text(s.f),
+        ["", " (flags via header_mut)", " (flags via header_mut, OPT via set_udp_payload_size+add_opt)"][s.mode as usize],
         KINDS[s.ans as usize]
     )
 }
@@ -426,6 +483,12 @@ fn render(kind: u8, qname: &[u8], qtype: u16, f: u8, m: u8) -> Option<(u16, [Vec
                 s[2].push(Rec { owner: ns_name(m), rtype: T_RRSIG, ttl: 10, rdata: rd_rrsig(T_A, m, 5) });
             }
         }
+        34 => s[0].push(ans(10_000_000, 0)),
+        35 => s[1].push(soa(100_000)),
+        36 => {
+            h |= 3;
+            s[1].push(soa(100_000));
+        }
         22 | 24 => {
             if kind == 24 {
                 h |= 3;
@@ -445,17 +508,19 @@ fn render(kind: u8, qname: &[u8], qtype: u16, f: u8, m: u8) -> Option<(u16, [Vec
     Some((h, s))
 }
 
-fn build_message(id: u16, flags: u16, qname: &[u8], qtype: u16, secs: &[Vec<Rec>; 3], opt_do: Option<bool>) -> Vec<u8> {
+fn build_message(id: u16, flags: u16, qs: &[(&[u8], u16, u16)], secs: &[Vec<Rec>; 3], opt_do: Option<bool>) -> Vec<u8> {
     let mut v = Vec::new();
     v.extend_from_slice(&id.to_be_bytes());
     v.extend_from_slice(&flags.to_be_bytes());
-    v.extend_from_slice(&1u16.to_be_bytes());
+    v.extend_from_slice(&(qs.len() as u16).to_be_bytes());
     v.extend_from_slice(&(secs[0].len() as u16).to_be_bytes());
     v.extend_from_slice(&(secs[1].len() as u16).to_be_bytes());
     v.extend_from_slice(&((secs[2].len() + opt_do.is_some() as usize) as u16).to_be_bytes());
-    v.extend_from_slice(qname);
-    v.extend_from_slice(&qtype.to_be_bytes());
-    v.extend_from_slice(&1u16.to_be_bytes());
+    for (qname, qtype, qclass) in qs {
+        v.extend_from_slice(qname);
+        v.extend_from_slice(&qtype.to_be_bytes());
+        v.extend_from_slice(&qclass.to_be_bytes());
+    }
     for s in secs {
         for r in s {
             v.extend_from_slice(&r.owner);
@@ -476,24 +541,44 @@ fn build_message(id: u16, flags: u16, qname: &[u8], qtype: u16, secs: &[Vec<Rec>
     v
 }
 
-fn build_request(q: u8, f: u8, step: usize) -> RequestMessage<Vec<u8>> {
-    let mut flags = 0u16;
-    if f & RD != 0 {
-        flags |= H_RD;
+/// Builds the client's request; Err if the ComposeRequest accessors do not
+/// read back what was set.
+fn build_request(q: u8, f: u8, step: usize, mode: u8) -> Result<RequestMessage<Vec<u8>>, String> {
+    let form = &FORMS[q as usize];
+    let mut flags = (form.opcode as u16) << 11;
+    if mode == 0 {
+        if f & RD != 0 {
+            flags |= H_RD;
+        }
+        if f & AD != 0 {
+            flags |= H_AD;
+        }
+        if f & CD != 0 {
+            flags |= H_CD;
+        }
     }
-    if f & AD != 0 {
-        flags |= H_AD;
-    }
-    if f & CD != 0 {
-        flags |= H_CD;
-    }
-    let bytes = build_message(0x1000 + step as u16, flags, q_name(q), q_type(q), &[vec![], vec![], vec![]], None);
+    let bytes = build_message(0x1000 + step as u16, flags, form.qs, &[vec![], vec![], vec![]], None);
     let msg = Message::from_octets(bytes).expect("harness request is a message");
-    let mut req = RequestMessage::new(msg).expect("harness request is acceptable");
+    let mut req = RequestMessage::new(msg).map_err(|e| format!("RequestMessage::new refused {}: {e:?}", form.text))?;
+    if mode != 0 {
+        let h = req.header_mut();
+        h.set_rd(f & RD != 0);
+        h.set_ad(f & AD != 0);
+        h.set_cd(f & CD != 0);
+    }
+    if mode == 2 {
+        req.set_udp_payload_size(1400);
+        let pad = Padding::from_octets([0u8; 4]).expect("padding");
+        req.add_opt(&pad).map_err(|_| "add_opt failed".to_string())?;
+    }
     if f & DO != 0 {
         req.set_dnssec_ok(true);
     }
-    req
+    let h = req.header();
+    if h.rd() != (f & RD != 0) || h.ad() != (f & AD != 0) || h.cd() != (f & CD != 0) || req.dnssec_ok() != (f & DO != 0) {
+        return Err("ComposeRequest::header()/dnssec_ok() do not read back the flags that were set".into());
+    }
+    Ok(req)
 }
 
 // ---------------------------------------------------------------- own wire reader (canonical form)
@@ -516,8 +601,8 @@ impl CRec {
 #[derive(Clone, Debug)]
 struct PMsg {
     flags: u16,
-    nq: usize,
-    qname: Vec<u8>, // lower-cased wire
+    /// the whole question section, names lower-cased
+    questions: Vec<(Vec<u8>, u16, u16)>,
     qtype: u16,
     qclass: u16,
     recs: Vec<CRec>, // sorted, OPT excluded
@@ -599,11 +684,12 @@ fn parse(bytes: &[u8]) -> Result<PMsg, String> {
         }
     }
     recs.sort();
-    let (qname, qtype, qclass) = match raw.questions.first() {
-        Some(q) => (lower_wire(&q.qname), q.qtype, q.qclass),
-        None => (vec![], 0, 0),
+    let (qtype, qclass) = match raw.questions.first() {
+        Some(q) => (q.qtype, q.qclass),
+        None => (0, 0),
     };
-    Ok(PMsg { flags: raw.flags, nq: raw.questions.len(), qname, qtype, qclass, recs, opt_do })
+    let questions = raw.questions.iter().map(|q| (lower_wire(&q.qname), q.qtype, q.qclass)).collect();
+    Ok(PMsg { flags: raw.flags, questions, qtype, qclass, recs, opt_do })
 }
 
 // ---------------------------------------------------------------- scripted upstream
@@ -611,8 +697,7 @@ fn parse(bytes: &[u8]) -> Result<PMsg, String> {
 struct LogEntry {
     step: usize,
     t_ms: u64,
-    qname: Vec<u8>,
-    qtype: u16,
+    ident: Ident,
     f: u8,
     kind: u8,
     /// what the upstream returned: parsed message, or the error's Debug text
@@ -653,14 +738,28 @@ impl SendRequest<RequestMessage<Vec<u8>>> for Upstream {
             }
         };
         let p = match parse(&bytes) {
-            Ok(p) if p.nq == 1 => p,
-            other => {
-                sh.bad = Some(format!("forwarded request unparseable: {:?}", other.err()));
+            Ok(p) => p,
+            Err(e) => {
+                sh.bad = Some(format!("forwarded request unparseable: {e}"));
                 return Box::new(Scripted(Err(Error::FormError)));
             }
         };
+        // the serialisation a real transport uses must say the same
+        match req.append_message(Vec::new()).map(|b| b.finish()) {
+            Ok(alt) => match parse(&alt) {
+                Ok(a) if a.flags == p.flags && a.questions == p.questions && a.opt_do == p.opt_do && a.recs == p.recs => {}
+                other => sh.bad = Some(format!("append_message and to_vec disagree: {:?} vs {:?}", other.map(|a| (a.flags, a.questions, a.opt_do)), (p.flags, &p.questions, p.opt_do))),
+            },
+            Err(e) => sh.bad = Some(format!("forwarded request: append_message failed: {e:?}")),
+        }
         let raw = read_message(&bytes).unwrap();
-        let qname_wire: Vec<u8> = mc::wire::to_wire(&raw.questions[0].qname);
+        let qwires: Vec<(Vec<u8>, u16, u16)> = raw.questions.iter().map(|q| (mc::wire::to_wire(&q.qname), q.qtype, q.qclass)).collect();
+        let qrefs: Vec<(&[u8], u16, u16)> = qwires.iter().map(|(n, t, c)| (&n[..], *t, *c)).collect();
+        // the records are about the first question (a.ex/A if there is none)
+        let (qname_wire, qtype0): (Vec<u8>, u16) = match qwires.first() {
+            Some((n, t, _)) => (n.clone(), *t),
+            None => (A_LC.to_vec(), T_A),
+        };
         let mut f = 0u8;
         if p.flags & H_RD != 0 {
             f |= RD;
@@ -676,22 +775,23 @@ impl SendRequest<RequestMessage<Vec<u8>>> for Upstream {
         }
         let m = sh.step as u8 + 1;
         let kind = sh.kind;
-        let (res, logged, rawout) = match render(kind, &qname_wire, p.qtype, f, m) {
+        let (res, logged, rawout) = match render(kind, &qname_wire, qtype0, f, m) {
             None => {
                 let e = Error::ConnectionClosed;
                 let txt = format!("{e:?}");
                 (Err(e), Err(txt), vec![])
             }
             Some((h, secs)) => {
-                let flags = H_QR | H_RA | h | (p.flags & (H_RD | H_CD));
-                let out = build_message(raw.id, flags, &qname_wire, p.qtype, &secs, p.opt_do);
+                let flags = H_QR | H_RA | h | (p.flags & (H_RD | H_CD | 0x7800));
+                let out = build_message(raw.id, flags, &qrefs, &secs, p.opt_do);
                 let parsed = parse(&out).expect("harness response parses");
                 let msg = Message::from_octets(Bytes::from(out.clone())).expect("harness response is a message");
                 (Ok(msg), Ok(parsed), out)
             }
         };
         let (step, t_ms) = (sh.step, sh.now_ms);
-        sh.log.push(LogEntry { step, t_ms, qname: p.qname.clone(), qtype: p.qtype, f, kind, res: logged, raw: rawout });
+        let ident: Ident = (((p.flags >> 11) & 0xF) as u8, p.questions.clone());
+        sh.log.push(LogEntry { step, t_ms, ident, f, kind, res: logged, raw: rawout });
         Box::new(Scripted(res))
     }
 }
@@ -720,7 +820,25 @@ fn run_history(cfg_i: usize, steps: &[Step]) -> Result<Run, String> {
         let shared = Arc::new(Mutex::new(Shared { kind: 0, step: 0, now_ms: 0, log: Vec::new(), bad: None }));
         let sh2 = shared.clone();
         let obs = rt.block_on(async move {
-            let conn = cache::Connection::with_config(Upstream(sh2.clone()), make_cfg(cfg_i));
+            if CFGS[cfg_i].setup == Setup::New {
+                // first entry point, upstream used directly
+                let conn = cache::Connection::new(Upstream(sh2.clone()));
+                drive(&conn, steps, &sh2).await
+            } else {
+                // second entry point, upstream behind Box (request.rs Box<T> impl)
+                let conn = cache::Connection::with_config(Box::new(Upstream(sh2.clone())), make_cfg(cfg_i));
+                drive(&conn, steps, &sh2).await
+            }
+        });
+        drop(rt);
+        let mut s = shared.lock().unwrap();
+        Run { obs, log: std::mem::take(&mut s.log), bad: s.bad.take() }
+    })
+}
+
+async fn drive<C: SendRequest<RequestMessage<Vec<u8>>>>(conn: &C, steps: &[Step], sh2: &Arc<Mutex<Shared>>) -> Vec<StepObs> {
+    {
+        {
             let mut obs = Vec::with_capacity(steps.len());
             let mut now = 0u64;
             for (i, st) in steps.iter().enumerate() {
@@ -735,7 +853,14 @@ fn run_history(cfg_i: usize, steps: &[Step]) -> Result<Run, String> {
                     s.now_ms = now;
                     s.log.len()
                 };
-                let req = build_request(st.q, st.f, i);
+                let req = match build_request(st.q, st.f, i, st.mode) {
+                    Ok(r) => r,
+                    Err(e) => {
+                        sh2.lock().unwrap().bad = Some(e.clone());
+                        obs.push(StepObs { forwarded: true, res: Err(e), t_ms: now });
+                        continue;
+                    }
+                };
                 let mut pending = conn.send_request(req);
                 let res = pending.get_response().await;
                 drop(pending);
@@ -750,11 +875,8 @@ fn run_history(cfg_i: usize, steps: &[Step]) -> Result<Run, String> {
                 });
             }
             obs
-        });
-        drop(rt);
-        let mut s = shared.lock().unwrap();
-        Run { obs, log: std::mem::take(&mut s.log), bad: s.bad.take() }
-    })
+        }
+    }
 }
 
 // ---------------------------------------------------------------- the reference
@@ -802,7 +924,8 @@ fn class_cap(cfg: &Cfg, class: usize) -> (u64, &'static str) {
 }
 
 struct Probe<'a> {
-    qname: &'a [u8], // lower-cased wire
+    ident: &'a Ident,
+    /// type of the first question (0 if none)
     qtype: u16,
     f: u8,
     now_ms: u64,
@@ -831,7 +954,7 @@ fn fail(stage: u8, sig: impl Into<String>, what: impl Into<String>) -> Fail {
 /// earlier upstream response `e`?
 fn check_candidate(cfg: &Cfg, e: &LogEntry, p: &Probe, served: &Result<PMsg, String>) -> Result<u32, Fail> {
     // 1. same question
-    if e.qname != p.qname || e.qtype != p.qtype {
+    if e.ident != *p.ident {
         return Err(fail(1, "other-question", format!("only an upstream response for another question exists (step {})", e.step)));
     }
     let el_ms = p.now_ms - e.t_ms;
@@ -994,7 +1117,7 @@ fn check_candidate(cfg: &Cfg, e: &LogEntry, p: &Probe, served: &Result<PMsg, Str
         if srd != (src.flags & H_RD != 0) && srd != (p.f & RD != 0) {
             return Err(fail(7, "header|rd", "RD is neither the upstream's nor the query's"));
         }
-        if s.nq != 1 || s.qname != p.qname || s.qtype != p.qtype || s.qclass != 1 {
+        if s.questions != p.ident.1 || ((s.flags >> 11) & 0xF) as u8 != p.ident.0 {
             return Err(fail(7, "question|not-the-query's", "the question section of the served response is not the query's question"));
         }
     }
@@ -1020,8 +1143,8 @@ fn judge_step(cfg: &Cfg, steps: &[Step], run: &Run, i: usize) -> Verdict {
         },
         Err(e) => Err(e.clone()),
     };
-    let lq: Vec<u8> = q_name(steps[i].q).iter().map(|b| b.to_ascii_lowercase()).collect();
-    let p = Probe { qname: &lq, qtype: q_type(steps[i].q), f: steps[i].f, now_ms: o.t_ms };
+    let ident = form_ident(steps[i].q);
+    let p = Probe { ident: &ident, qtype: ident.1.first().map(|q| q.1).unwrap_or(0), f: steps[i].f, now_ms: o.t_ms };
     let mut best: Option<Fail> = None;
     for e in run.log.iter().filter(|e| e.step < i) {
         match check_candidate(cfg, e, &p, &served) {
@@ -1062,6 +1185,8 @@ struct Local {
     fills_forwarded: u64,
     exact_bound: u64,
     nx_nosoa_served: u64,
+    evict_forward_seen: bool,
+    evict_hit_seen: bool,
     outcomes: HashMap<u32, u64>,
     served_by_kind: KindCounts,
     by_adv: BTreeMap<u64, (u64, u64)>,
@@ -1080,6 +1205,8 @@ impl Local {
         self.fills_forwarded += o.fills_forwarded;
         self.exact_bound += o.exact_bound;
         self.nx_nosoa_served += o.nx_nosoa_served;
+        self.evict_forward_seen |= o.evict_forward_seen;
+        self.evict_hit_seen |= o.evict_hit_seen;
         for (k, v) in o.outcomes {
             *self.outcomes.entry(k).or_insert(0) += v;
         }
@@ -1152,9 +1279,25 @@ fn eval_history(ctx: &Ctx, shape: &'static str, cfg_i: usize, steps: &[Step], lo
     if let Some(b) = &run.bad {
         ctx.violation("C20|cache|forwarded-request-malformed", b, case_json(cfg_i, steps));
     }
+    // moka runs its size policy after 64 logged reads OR 300 ms of real time:
+    // with one cache entry, WHICH request is forwarded can depend on the
+    // machine's load. The oracle does not care, but the hit/forward counters
+    // of that configuration are kept out of the reproducible figures.
+    let counted = cfg.setup != Setup::OneEntry;
     let mut any_served = false;
     for i in 0..steps.len() {
         let v = judge_step(cfg, steps, &run, i);
+        if !counted {
+            match v {
+                Verdict::Forwarded if i >= 4 => loc.evict_forward_seen = true,
+                Verdict::Hit(..) => loc.evict_hit_seen = true,
+                Verdict::Bad(sig, what) => {
+                    ctx.violation(&sig, &format!("step {i} ({}): {what}", step_text(&steps[i])), case_json(cfg_i, steps));
+                }
+                _ => {}
+            }
+            continue;
+        }
         if verbose {
             let o = &run.obs[i];
             println!("  step {i}: {}", step_text(&steps[i]));
@@ -1235,6 +1378,7 @@ fn main() {
                 q: s["q"].as_u64().unwrap() as u8,
                 f: s["flags"].as_u64().unwrap() as u8,
                 ans: s["ans"].as_u64().unwrap() as u8,
+                mode: s["mode"].as_u64().unwrap_or(0) as u8,
             })
             .collect();
         println!("replaying under config {} ({:?})", CFGS[cfg_i].name, CFGS[cfg_i]);
@@ -1254,10 +1398,10 @@ fn main() {
 
     // ---- menus
     let fill_qs: [u8; 3] = [0, 1, 2];
-    let nkinds = KINDS.len() as u8;
+    let nkinds = N_MAIN;
     let fills: Vec<Step> = fill_qs
         .iter()
-        .flat_map(|&q| (0..16u8).flat_map(move |f| (0..nkinds).map(move |ans| Step { adv_ms: 0, q, f, ans })))
+        .flat_map(|&q| (0..16u8).flat_map(move |f| (0..nkinds).map(move |ans| Step { adv_ms: 0, q, f, ans, mode: 0 })))
         .collect();
     // clock advances (ms) in front of a probe; every configured bound and
     // every TTL of the answer menu has a value just below, at, and above it
@@ -1276,7 +1420,11 @@ fn main() {
     // first probe of fill·probe·probe
     let adv2a: Vec<u64> = if quick { vec![0, 5000, 11000] } else { adv2.clone() };
     // b.ex/A is the mirror image of a.ex/A: it is left out of the three-step shape
-    let fills2: Vec<Step> = fills.iter().filter(|f| f.q != 1).copied().collect();
+    // The quick tier also leaves out the long-TTL twins of answers whose
+    // behaviour within the 21 s this shape spans is that of their short-TTL
+    // sibling of the same class (they are all in fill·probe).
+    const LONG_TTL_TWINS: [u8; 9] = [4, 7, 9, 12, 21, 22, 23, 24, 25];
+    let fills2: Vec<Step> = fills.iter().filter(|f| f.q != 1 && !(quick && LONG_TTL_TWINS.contains(&f.ans))).copied().collect();
     // fill·probe: the quick tier leaves the mirror image b.ex/A out as well;
     // config default+cache_truncated differs from default only in how a TC
     // response is treated, so it is run over the TC fills only
@@ -1297,7 +1445,7 @@ fn main() {
         for &a in &adv1 {
             for f in 0..16u8 {
                 loc.nodes += 1;
-                let h = [fill, Step { adv_ms: a, q: fill.q, f, ans: K_PROBE }];
+                let h = [fill, Step { adv_ms: a, q: fill.q, f, ans: K_PROBE, mode: 0 }];
                 eval_history(&ctx, "fill-probe", c, &h, &mut loc, false);
             }
         }
@@ -1317,7 +1465,7 @@ fn main() {
                 for &a2 in &adv2 {
                     for f2 in 0..16u8 {
                         loc.nodes += 1;
-                        let h = [fill, Step { adv_ms: a1, q: fill.q, f: f1, ans: K_PROBE }, Step { adv_ms: a2, q: fill.q, f: f2, ans: K_PROBE }];
+                        let h = [fill, Step { adv_ms: a1, q: fill.q, f: f1, ans: K_PROBE, mode: 0 }, Step { adv_ms: a2, q: fill.q, f: f2, ans: K_PROBE, mode: 0 }];
                         eval_history(&ctx, "fill-probe-probe", c, &h, &mut loc, false);
                     }
                 }
@@ -1329,21 +1477,31 @@ fn main() {
 
     // ---- shape 3: fill · cross-probe (probe on every OTHER question,
     //      including the same name in another case, which IS the same question)
-    let cfgs3: Vec<usize> = if quick { vec![0] } else { (0..CFGS.len()).collect() };
+    //      and on every pass-through request form: class CH, two questions,
+    //      no question, opcode STATUS. Fills come in all 8 forms; a form >= 4
+    //      is also probed with itself (forms 0-3 with themselves is shape 1).
+    let cfgs3: Vec<usize> = if quick { vec![0] } else { vec![0, 1, 2, 3] };
     let adv3: Vec<u64> = vec![0, 5000];
-    let items: Vec<(usize, Step)> = cfgs3.iter().flat_map(|&c| fills.iter().map(move |f| (c, *f))).collect();
+    let kinds3: Vec<u8> = if quick { vec![0, 6, K_TRANSPORT, 16, 26] } else { (0..N_MAIN).collect() };
+    let fills3: Vec<Step> = (0..NQ as u8)
+        .flat_map(|q| {
+            let kinds3 = &kinds3;
+            (0..16u8).flat_map(move |f| kinds3.iter().map(move |&ans| Step { adv_ms: 0, q, f, ans, mode: 0 }))
+        })
+        .collect();
+    let items: Vec<(usize, Step)> = cfgs3.iter().flat_map(|&c| fills3.iter().map(move |f| (c, *f))).collect();
     items.par_iter().for_each(|&(c, fill)| {
         wd.enter(|| json!({"shape": "fill-cross-probe", "cfg": c, "fill": step_json(&fill)}));
         let mut loc = Local::default();
         loc.nodes += 1;
         for q in 0..NQ as u8 {
-            if q == fill.q {
+            if q == fill.q && q < 4 {
                 continue;
             }
             for &a in &adv3 {
                 for f in 0..16u8 {
                     loc.nodes += 1;
-                    let h = [fill, Step { adv_ms: a, q, f, ans: K_PROBE }];
+                    let h = [fill, Step { adv_ms: a, q, f, ans: K_PROBE, mode: 0 }];
                     eval_history(&ctx, "fill-cross-probe", c, &h, &mut loc, false);
                 }
             }
@@ -1364,7 +1522,7 @@ fn main() {
         let cfg4 = 0usize;
         let fills4: Vec<Step> = qs4
             .iter()
-            .flat_map(|&q| (0..16u8).flat_map(move |f| kinds4.into_iter().map(move |ans| Step { adv_ms: 0, q, f, ans })))
+            .flat_map(|&q| (0..16u8).flat_map(move |f| kinds4.into_iter().map(move |ans| Step { adv_ms: 0, q, f, ans, mode: 0 })))
             .collect();
         let fills4b: Vec<Step> = adv_f2
             .iter()
@@ -1383,7 +1541,7 @@ fn main() {
                     for &a2 in &adv_p2 {
                         for p2 in 0..16u8 {
                             loc.nodes += 1;
-                            let h = [f1, f2, Step { adv_ms: a1, q: f1.q, f: p1, ans: K_PROBE }, Step { adv_ms: a2, q: f1.q, f: p2, ans: K_PROBE }];
+                            let h = [f1, f2, Step { adv_ms: a1, q: f1.q, f: p1, ans: K_PROBE, mode: 0 }, Step { adv_ms: a2, q: f1.q, f: p2, ans: K_PROBE, mode: 0 }];
                             eval_history(&ctx, "fill-fill-probe-probe", cfg4, &h, &mut loc, false);
                         }
                     }
@@ -1394,19 +1552,103 @@ fn main() {
         });
     }
 
+    // ---- shape 5: out-of-range configuration requests. Every duration setter
+    //      is given Duration::ZERO resp. Duration::MAX; the reference bounds
+    //      are the documented minima resp. maxima. Answers and advances sit
+    //      around exactly those limits.
+    let s5: [(usize, Vec<u8>, Vec<u64>); 2] = [
+        (CFG_ZERO, vec![4, 7, 9, 12, 13, K_TRANSPORT, 21], vec![0, 1, 2, 59, 60, 61]),
+        (CFG_HUGE, vec![0, 34, 35, 36, 12, 13, K_TRANSPORT, 21], vec![0, 300, 301, 86_400, 86_401, 2_000_000, 2_000_001, 6_048_000, 6_048_001]),
+    ];
+    let items: Vec<(usize, Step, &Vec<u64>)> = s5
+        .iter()
+        .flat_map(|(c, kinds, advs)| [0u8, 2].into_iter().flat_map(move |q| (0..16u8).flat_map(move |f| kinds.iter().map(move |&ans| (*c, Step { adv_ms: 0, q, f, ans, mode: 0 }, advs)))))
+        .collect();
+    items.par_iter().for_each(|&(c, fill, advs)| {
+        wd.enter(|| json!({"shape": "config-limits", "cfg": c, "fill": step_json(&fill)}));
+        let mut loc = Local::default();
+        loc.nodes += 1;
+        for &a in advs {
+            for f in 0..16u8 {
+                loc.nodes += 1;
+                let h = [fill, Step { adv_ms: a * 1000, q: fill.q, f, ans: K_PROBE, mode: 0 }];
+                eval_history(&ctx, "config-limits", c, &h, &mut loc, false);
+            }
+        }
+        wd.leave();
+        global.lock().unwrap().merge(loc);
+    });
+
+    // ---- shape 6: how the client built the request. Flags in the message
+    //      handed to RequestMessage::new (mode 0), set through header_mut()
+    //      (mode 1), plus an OPT record made by set_udp_payload_size/add_opt
+    //      (mode 2); all pairs of modes except (0,0), which is shape 1.
+    let kinds6: [u8; 3] = [0, 16, 26];
+    let items: Vec<Step> = (0..16u8).flat_map(|f| kinds6.into_iter().flat_map(move |ans| (0..3u8).map(move |mode| Step { adv_ms: 0, q: 0, f, ans, mode }))).collect();
+    items.par_iter().for_each(|&fill| {
+        wd.enter(|| json!({"shape": "request-representation", "fill": step_json(&fill)}));
+        let mut loc = Local::default();
+        loc.nodes += 1;
+        for mode in 0..3u8 {
+            if fill.mode == 0 && mode == 0 {
+                continue;
+            }
+            for &a in &adv3 {
+                for f in 0..16u8 {
+                    loc.nodes += 1;
+                    let h = [fill, Step { adv_ms: a, q: 0, f, ans: K_PROBE, mode }];
+                    eval_history(&ctx, "request-representation", 0, &h, &mut loc, false);
+                }
+            }
+        }
+        wd.leave();
+        global.lock().unwrap().merge(loc);
+    });
+
+    // ---- shape 7: a cache of ONE entry (set_max_cache_entries(0), minimum 1
+    //      applies). fill a.ex, fill b.ex, then 40 rounds of (probe a.ex,
+    //      probe b.ex): moka applies its size policy after 64 logged reads,
+    //      so entries are evicted in the middle of the history. Whatever is
+    //      evicted when, every response served from the cache must still be
+    //      justified. The whole history spans 3 s, less than any TTL used, so
+    //      a forward after the first round can only come from eviction.
+    const ROUNDS: usize = 40;
+    let kinds7: [u8; 3] = [0, 18, K_TRANSPORT];
+    let items: Vec<(u8, u8)> = (0..16u8).flat_map(|f| kinds7.into_iter().map(move |k| (f, k))).collect();
+    items.par_iter().for_each(|&(f1, k)| {
+        wd.enter(|| json!({"shape": "one-entry-eviction", "fill_flags": f1, "fill_answer": k}));
+        let mut loc = Local::default();
+        loc.nodes += 1;
+        for p in 0..16u8 {
+            let mut h = vec![Step { adv_ms: 0, q: 0, f: f1, ans: k, mode: 0 }, Step { adv_ms: 0, q: 1, f: f1, ans: 1, mode: 0 }];
+            for r in 0..ROUNDS {
+                let adv = if r % 10 == 9 && r < 30 { 1000 } else { 0 };
+                h.push(Step { adv_ms: adv, q: 0, f: p, ans: K_PROBE, mode: 0 });
+                h.push(Step { adv_ms: 0, q: 1, f: p, ans: K_PROBE, mode: 0 });
+            }
+            loc.nodes += h.len() as u64 - 1;
+            eval_history(&ctx, "one-entry-eviction", CFG_ONE_ENTRY, &h, &mut loc, false);
+        }
+        wd.leave();
+        global.lock().unwrap().merge(loc);
+    });
+
     // ---- samples: shortest and deepest histories, executed and written out
     let mut sample_hist: Vec<(usize, Vec<Step>)> = vec![
-        (0, vec![Step { adv_ms: 0, q: 0, f: RD, ans: 0 }, Step { adv_ms: 10000, q: 0, f: RD, ans: 0 }]),
-        (0, vec![Step { adv_ms: 0, q: 0, f: RD, ans: 0 }, Step { adv_ms: 11000, q: 0, f: RD, ans: 0 }]),
-        (1, vec![Step { adv_ms: 0, q: 0, f: RD | DO, ans: 18 }, Step { adv_ms: 4000, q: 0, f: 0, ans: 0 }]),
-        (3, vec![Step { adv_ms: 0, q: 2, f: RD | AD, ans: 9 }, Step { adv_ms: 5000, q: 2, f: 0, ans: 0 }, Step { adv_ms: 11000, q: 2, f: RD, ans: 0 }]),
-        (0, vec![Step { adv_ms: 0, q: 0, f: RD | DO, ans: 19 }, Step { adv_ms: 5000, q: 0, f: CD, ans: 0 }, Step { adv_ms: 0, q: 0, f: 0, ans: 0 }]),
-        (0, vec![Step { adv_ms: 0, q: 0, f: RD, ans: 22 }, Step { adv_ms: 3_601_000, q: 0, f: RD, ans: 0 }]),
-        (0, vec![Step { adv_ms: 0, q: 0, f: RD | DO, ans: 33 }, Step { adv_ms: 1000, q: 0, f: RD, ans: 0 }]),
-        (0, vec![Step { adv_ms: 0, q: 0, f: RD | DO | CD, ans: 29 }, Step { adv_ms: 1000, q: 0, f: RD | CD | AD, ans: 0 }]),
+        (0, vec![Step { adv_ms: 0, q: 0, f: RD, ans: 0, mode: 0 }, Step { adv_ms: 10000, q: 0, f: RD, ans: 0, mode: 0 }]),
+        (0, vec![Step { adv_ms: 0, q: 0, f: RD, ans: 0, mode: 0 }, Step { adv_ms: 11000, q: 0, f: RD, ans: 0, mode: 0 }]),
+        (1, vec![Step { adv_ms: 0, q: 0, f: RD | DO, ans: 18, mode: 0 }, Step { adv_ms: 4000, q: 0, f: 0, ans: 0, mode: 0 }]),
+        (3, vec![Step { adv_ms: 0, q: 2, f: RD | AD, ans: 9, mode: 0 }, Step { adv_ms: 5000, q: 2, f: 0, ans: 0, mode: 0 }, Step { adv_ms: 11000, q: 2, f: RD, ans: 0, mode: 0 }]),
+        (0, vec![Step { adv_ms: 0, q: 0, f: RD | DO, ans: 19, mode: 0 }, Step { adv_ms: 5000, q: 0, f: CD, ans: 0, mode: 0 }, Step { adv_ms: 0, q: 0, f: 0, ans: 0, mode: 0 }]),
+        (0, vec![Step { adv_ms: 0, q: 0, f: RD, ans: 22, mode: 0 }, Step { adv_ms: 3_601_000, q: 0, f: RD, ans: 0, mode: 0 }]),
+        (0, vec![Step { adv_ms: 0, q: 0, f: RD | DO, ans: 33, mode: 0 }, Step { adv_ms: 1000, q: 0, f: RD, ans: 0, mode: 0 }]),
+        (0, vec![Step { adv_ms: 0, q: 0, f: RD | DO | CD, ans: 29, mode: 0 }, Step { adv_ms: 1000, q: 0, f: RD | CD | AD, ans: 0, mode: 0 }]),
+        (0, vec![Step { adv_ms: 0, q: 0, f: RD, ans: 0, mode: 0 }, Step { adv_ms: 1000, q: 4, f: RD, ans: 0, mode: 0 }]),
+        (0, vec![Step { adv_ms: 0, q: 5, f: RD, ans: 0, mode: 0 }, Step { adv_ms: 1000, q: 5, f: RD, ans: 0, mode: 0 }]),
+        (CFG_HUGE, vec![Step { adv_ms: 0, q: 0, f: RD, ans: 35, mode: 1 }, Step { adv_ms: 86_401_000, q: 0, f: RD, ans: 0, mode: 2 }]),
     ];
     if !quick {
-        sample_hist.push((0, vec![Step { adv_ms: 0, q: 0, f: RD | DO, ans: 18 }, Step { adv_ms: 5000, q: 0, f: RD, ans: 1 }, Step { adv_ms: 0, q: 0, f: 0, ans: 0 }, Step { adv_ms: 10000, q: 0, f: AD, ans: 0 }]));
+        sample_hist.push((0, vec![Step { adv_ms: 0, q: 0, f: RD | DO, ans: 18, mode: 0 }, Step { adv_ms: 5000, q: 0, f: RD, ans: 1, mode: 0 }, Step { adv_ms: 0, q: 0, f: 0, ans: 0, mode: 0 }, Step { adv_ms: 10000, q: 0, f: AD, ans: 0, mode: 0 }]));
     }
     for (c, h) in &sample_hist {
         let cfg = &CFGS[*c];
@@ -1425,7 +1667,7 @@ fn main() {
                 })
                 .collect(),
         };
-        stats.sample(12, || json!({"cfg": cfg.name, "history": h.iter().map(step_text).collect::<Vec<_>>(), "observed": outcome}));
+        stats.sample(16, || json!({"cfg": cfg.name, "history": h.iter().map(step_text).collect::<Vec<_>>(), "observed": outcome}));
     }
 
     let g = global.into_inner().unwrap();
@@ -1450,12 +1692,16 @@ fn main() {
             "distinct_nontrivial": g.nontrivial,
             "rule": "histories are pairwise distinct by construction (odometer over the product of the menus of each shape, per configuration); non-trivial = at least one step was answered without consulting the upstream (served from cache). states = nodes of the per-shape history trees (a node is the cache reached by one history prefix under one configuration; prefixes shared between shapes are counted once per shape); transitions = requests executed on the real cache::Connection",
             "exhaustive": true,
-            "bound_completed": format!("{}: fill·probe (({} configs x {} fills + config default+cache_truncated x the TC fills = {} (config, fill) pairs) x {} advances x 16 flags), fill·probe·probe ({} configs x {} fills x {} advances x 16 flags x {} advances x 16 flags), fill·cross-probe ({} configs x {} fills x 3 other questions x {} advances x 16 flags){}",
-                if quick { "quick" } else { "thorough" }, cfgs1.len(), fills1.len(), n_items1, adv1.len(), cfgs2.len(), fills2.len(), adv2a.len(), adv2.len(), cfgs3.len(), fills.len(), adv3.len(),
+            "bound_completed": format!("{}: fill·probe (({} configs x {} fills + config default+cache_truncated x the TC fills = {} (config, fill) pairs) x {} advances x 16 flags), fill·probe·probe ({} configs x {} fills x {} advances x 16 flags x {} advances x 16 flags), fill·cross-probe ({} configs x {} fills in all 8 request forms x the other forms, and the form itself for the 4 pass-through forms, x {} advances x 16 flags), config-limits (zero-requested and huge-requested, see menus.config_limits), request-representation (default config, a.ex/A, 3 answers x 16 x 16 flags x 8 mode pairs x 2 advances), one-entry-eviction (768 histories of 82 requests){}",
+                if quick { "quick" } else { "thorough" }, cfgs1.len(), fills1.len(), n_items1, adv1.len(), cfgs2.len(), fills2.len(), adv2a.len(), adv2.len(), cfgs3.len(), fills3.len(), adv3.len(),
                 if quick { "" } else { ", fill·fill'·probe·probe (default config, reduced menus, see menus.shape4)" }),
             "menus": {
                 "questions_fill": ["a.ex/A", "b.ex/A", "a.ex/RRSIG"],
-                "questions_cross_probe": ["a.ex/A", "b.ex/A", "a.ex/RRSIG", "A.EX/A"],
+                "request_forms_cross_probe": FORMS.iter().map(|f| f.text).collect::<Vec<_>>(),
+                "answers_cross_probe": kinds3.iter().map(|k| KINDS[*k as usize]).collect::<Vec<_>>(),
+                "config_limits": s5.iter().map(|(c, k, a)| json!({"config": CFGS[*c].name, "questions": ["a.ex/A", "a.ex/RRSIG"], "flags": 16, "answers": k.iter().map(|k| KINDS[*k as usize]).collect::<Vec<_>>(), "probe_advances_s": a, "probe_flags": 16})).collect::<Vec<_>>(),
+                "request_modes": ["flags in the message given to RequestMessage::new", "flags via header_mut()", "flags via header_mut() + set_udp_payload_size + add_opt(Padding)"],
+                "one_entry_eviction": {"fill": "a.ex/A x 16 flags x {pos-ttl10-aa, signed-pos20-rrsig5, transport-error}, then b.ex/A same flags pos-mixed", "rounds": ROUNDS, "probe_flags": 16},
                 "flags": "all 16 of RD x CD x AD x DO",
                 "upstream_answers": KINDS.to_vec(),
                 "fills": fills.len(),
@@ -1471,6 +1717,7 @@ fn main() {
             "of_which_fills": g.fills_forwarded,
             "served_at_exactly_the_bound_accepted": g.exact_bound,
             "observation_nxdomain_without_soa_served_from_cache": g.nx_nosoa_served,
+            "one_entry_eviction_observed": {"a_request_was_forwarded_although_its_entry_was_cached_and_fresh": g.evict_forward_seen, "a_request_was_still_served_from_cache": g.evict_hit_seen},
             "distinct_oracle_outcomes": outcomes.len() + 1,
             "oracle_outcomes": outcomes,
             "served_from_cache_by_source_answer_kind": served_by_kind,
@@ -1481,7 +1728,9 @@ fn main() {
         }),
         &[
             "cache.rs measures time with tokio::time::Instant; the paused tokio clock advanced by tokio::time::advance is the only clock the cache's validity logic reads",
-            "moka::future::Cache 0.12 is built with a capacity only (no TTL/TTI, no background threads); at most 9 of 1000 entries are used, so size eviction never runs and moka's own real-time bookkeeping cannot change what get() returns",
+            "moka::future::Cache 0.12 is built with a capacity only (no TTL/TTI, no background threads); except under configuration one-cache-entry at most 9 of 1000 entries are used, so size eviction never runs and moka's own real-time bookkeeping cannot change what get() returns. Under one-cache-entry eviction happens when moka's housekeeping runs (64 logged reads or 300 ms real time): the oracle is evaluated on every step there too, but that configuration's hit/forward counters are deliberately not part of the reproducible figures (only two booleans are reported)",
+            "out-of-range values given to the Config setters are limited to the ranges stated in the setters' documentation; those limits are the reference for configurations zero-requested and huge-requested",
+            "request forms the cache passes through (class CH, more than one question, no question, opcode other than QUERY) are held to the same rule: whatever is answered without asking the upstream must be an earlier upstream response for the same opcode and the same whole question section",
             "tokio current-thread FIFO scheduling; every request is awaited to completion before the next (no concurrent requests on one cache)",
             "menus as stated under coverage.menus; bound is on history shape, each shape enumerated completely",
             "a response served when elapsed time EQUALS the bound (TTL reaches 0) is accepted: the property says 'once ... has elapsed' and implementations differ at the instant itself; counted in served_at_exactly_the_bound_accepted",
